@@ -91,10 +91,12 @@ class Run(object):
         counts = {}
         for i in self.instances:
             counts[i.rule] = counts.get(i.rule, 0) + 1
+        floor_error = None
         if self.only_construct is None:
             for rule, n in self.floors.items():
                 if counts.get(rule, 0) < n:
-                    raise AnalysisError("rule %s evaluated %d instances, floor is %d (anchor lost?)" % (rule, counts.get(rule, 0), n))
+                    floor_error = "rule %s evaluated %d instances, floor is %d (anchor lost?)" % (rule, counts.get(rule, 0), n)
+                    break
         # known findings
         matched = []
         kf = [k for k in self.known.get("findings", []) if k.get("property") == self.prop]
@@ -108,6 +110,12 @@ class Run(object):
                     break
         viols = [i for i in self.instances if i.verdict == "violation"]
         knowns = [i for i in self.instances if i.verdict == "known"]
+        if floor_error is not None:
+            # with no violation a short count means the checker lost its anchors: fail closed.  With violations the count
+            # is short BECAUSE a construct is gone / broken, and the violations say which.
+            if not viols:
+                raise AnalysisError(floor_error)
+            self.extra["floor_note"] = floor_error
         if self.only_construct is not None:
             viols = [v for v in viols if v.construct == self.only_construct]
         outdir = os.path.join(VERIF, "out", self.prop)
